@@ -336,7 +336,7 @@ func c03Find(c *Ctx, cs0 *C03Case, out *CaseOut, wantSig string) []c03Fail {
 	tsnaps := make([]string, len(tpls))
 	for i, t := range tpls {
 		if t != nil {
-			tsnaps[i] = Snapshot(t)
+			tsnaps[i] = Snapshot(t.GetRoot())
 		}
 	}
 	exp := map[[3]int]Res{}
@@ -478,9 +478,13 @@ func c03Find(c *Ctx, cs0 *C03Case, out *CaseOut, wantSig string) []c03Fail {
 			if t == nil || (i != st.T && si != len(cs.Steps)-1) {
 				continue // the template just used after every step; all of them after the last
 			}
-			if s := Snapshot(t); s != tsnaps[i] {
-				if add("template-unchanged", fmt.Sprintf("step %d (%s of template %d with env %d) changed the parsed template %d %q: %s", si, st.Kind, st.T, st.B, i, clip(srcs[i]), diffAt(tsnaps[i], s)), si) {
-					return fails
+			if s := Snapshot(t.GetRoot()); s != tsnaps[i] {
+				// A change inside the render tree is reported as a probe only: what the
+				// statement promises is behaviour ("rendered again ... byte-identical"), and a
+				// correct memo inside a node changes no behaviour. Behavioural effects are
+				// caught by the render-independent clause.
+				if c != nil {
+					c.count("probe:render_tree_snapshot_changed", 1)
 				}
 				tsnaps[i] = s
 			}
